@@ -133,6 +133,31 @@ def oracle(ctx):
             cmp("limits-%s:d2ab" % name, g2[1], gr2[1], 1e-8)
         except Exception as e:
             ctx.fail("oracle", "quadgrad:limits-%s:exception" % name, {}, repr(e)[:300], "differentiation works for every accepted form of the limits")
+    # only the limits are differentiable: no parameter, a parameter without grad, a python number (finding F34: the slicing
+    # of the saved tensors with -0 handed the limits over as parameters and the backward raised)
+    for name, prm, fac in (("no-params", (), 1.0), ("tensor-nograd-param", (torch.tensor(2.0, dtype=DT),), 2.0), ("number-param", (2.0,), 2.0)):
+        try:
+            lo_ = torch.tensor(0.25, dtype=DT, requires_grad=True)
+            hi_ = torch.tensor(1.5, dtype=DT, requires_grad=True)
+            fl = lambda x, *p: torch.sin(x) * (p[0] if p else 1.0)
+            v = quad(fl, lo_, hi_, params=prm, n=30)
+            glo, ghi = torch.autograd.grad(v, (lo_, hi_), create_graph=True)
+            cmp("limits-only:%s:xl" % name, glo, -fac * torch.sin(lo_).detach(), 1e-12)
+            cmp("limits-only:%s:xu" % name, ghi, fac * torch.sin(hi_).detach(), 1e-12)
+            g2, = torch.autograd.grad(ghi, hi_, allow_unused=True)
+            cmp("limits-only:%s:d2xu" % name, g2, fac * torch.cos(hi_).detach(), 1e-10)
+        except Exception as e:
+            ctx.fail("oracle", "quadgrad:limits-only:%s:exception" % name, {}, repr(e)[:300], "Leibniz rule for the limits")
+    # one tensor passed in two parameter slots: the gradient w.r.t. it is the sum of the two partial derivatives
+    try:
+        v = quad(lambda x, p, q: p * x + q * x * x, 0.0, 1.0, params=(a, a), n=10)
+        g, = torch.autograd.grad(v, a)
+        ctx.count(("oracle", "aliased-explicit-params"))
+        if not torch.allclose(g, torch.tensor(5.0 / 6.0, dtype=DT), rtol=1e-9):
+            ctx.fail("oracle", "quadgrad:aliased-explicit-params", {"call": "quad(lambda x, p, q: p*x + q*x*x, 0, 1, params=(a, a))"},
+                     float(g), 5.0 / 6.0)
+    except Exception as e:
+        ctx.fail("oracle", "quadgrad:aliased-explicit-params:exception", {}, repr(e)[:300], "5/6")
     # infinite limit
     try:
         v = quad(lambda x, a: torch.exp(-a * x * x), 0.0, math.inf, params=(a,), n=150)
